@@ -131,6 +131,7 @@ var budgetMutated string
 // exec runs one operation; the budget check of setCfg is appended to its answer.
 func (e *executor) exec(line, lean string) string {
 	budgetMutated = ""
+	opCtx.set, opCtx.zeroBound, lastReaderFailed = false, false, false
 	out := e.exec1(line, lean)
 	if budgetMutated != "" {
 		out += budgetMutated
@@ -184,10 +185,17 @@ func withReader(s *scripted, f func()) (ro runOut) {
 	crand.Reader = s
 	defer func() {
 		crand.Reader = old
+		lastReaderFailed = s.failed
 		ro.used = (s.pos + 3) / 4
 		if r := recover(); r != nil {
 			ro.panicked = true
 			ro.panicMsg = fmt.Sprint(r)
+			// a panic while the scripted source had just reported a failure is the fail-closed
+			// panic, whatever its wording (no property fixes the text)
+			if s.failed && !strings.HasPrefix(ro.panicMsg, "PRNG gen error:") && ro.panicMsg != "randomUint32n called with 0" &&
+				!strings.HasPrefix(ro.panicMsg, "runtime error") {
+				ro.panicMsg = "PRNG gen error: (other wording) " + ro.panicMsg
+			}
 		}
 	}()
 	f()
@@ -301,15 +309,34 @@ func readerFor(a opArgs) *scripted {
 	return s
 }
 
+// panicLine classifies a panic of the library. The two panics the library documents are
+// recognised by their text; should the text be reworded (which no property forbids), by the
+// circumstances: the scripted source reported a failure during this operation (fault), or the
+// operation asked for a draw over zero alternatives (zero).
 func panicLine(msg string) string {
 	switch {
 	case strings.HasPrefix(msg, "PRNG gen error:"):
 		return "panic fault"
 	case msg == "randomUint32n called with 0":
 		return "panic zero"
+	case opCtx.zeroBound:
+		return "panic zero"
 	default:
 		return "panic other:" + encHex([]byte(msg))
 	}
+}
+
+// set by withReader: did the scripted source report an error or run dry during the last call?
+var lastReaderFailed bool
+
+// what the current operation is about, for classifying errors whose text is not one of the known ones
+var opCtx struct {
+	zeroBound     bool // a draw over zero alternatives was asked for
+	length        int
+	alphabetEmpty bool
+	noList        bool
+	used          int
+	set           bool
 }
 
 func errKind(err error) string {
@@ -325,6 +352,21 @@ func errKind(err error) string {
 		return "exhausted"
 	case strings.HasPrefix(m, "wordlist generator must be set up before being used"):
 		return "nolist"
+	}
+	// an error text we do not know (reworded?): the circumstances say which refusal it is
+	if opCtx.set {
+		switch {
+		case opCtx.noList:
+			return "nolist"
+		case opCtx.length < 1:
+			return "length"
+		case opCtx.alphabetEmpty:
+			return "nochars"
+		case opCtx.used == 0:
+			return "failrate"
+		default:
+			return "exhausted"
+		}
 	}
 	return "other:" + encHex([]byte(m))
 }
@@ -435,6 +477,7 @@ type executor struct {
 	lists   map[string]*spg.WordList
 	listSrc map[string][]string
 	seps    map[string]spg.SFFunction // long-lived separator functions (sepobj=)
+	usage   *string
 	opgen   string // path of the opgen binary
 	tmpdir  string
 }
@@ -625,6 +668,7 @@ func (e *executor) exec1(line, lean string) string {
 	switch op {
 	case "draw":
 		n, _ := strconv.ParseUint(a["n"], 10, 64)
+		opCtx.zeroBound = n == 0
 		s := readerFor(a)
 		var k uint32
 		ro := withReader(s, func() { k = spg.VerifRandomUint32n(uint32(n)) })
@@ -807,6 +851,7 @@ func (e *executor) exec1(line, lean string) string {
 		var err error
 		ro := withReader(s, func() { p, err = r.Generate() })
 		warn, _, unk := classifyOutput(capt.take())
+		opCtx.set, opCtx.noList, opCtx.length, opCtx.alphabetEmpty, opCtx.used = true, false, spec.L, len(setsOf(spec).alphabet) == 0, ro.used
 		oracle := ""
 		if !ro.panicked {
 			oracle = charOracle(spec, decWords(a["tape"]), p, ro.used, spg.MaxTrials)
@@ -984,6 +1029,7 @@ func (e *executor) exec1(line, lean string) string {
 		var err error
 		ro := withReader(s, func() { p, err = r.Generate() })
 		warn, _, unk := classifyOutput(capt.take())
+		opCtx.set, opCtx.noList, opCtx.length, opCtx.alphabetEmpty, opCtx.used = true, wl == nil || wl.Size() == 0, a.int("L"), false, ro.used
 		mut := ""
 		if before.Length != r.Length || before.SeparatorChar != r.SeparatorChar || before.Capitalize != r.Capitalize ||
 			(before.SeparatorFunc == nil) != (r.SeparatorFunc == nil) || before.Size() != r.Size() {
@@ -1311,6 +1357,20 @@ func genLine(op, lean string, p *spg.Password, err error, ro runOut, warn int, u
 
 // ---------- opgen
 
+// usageText: what the binary prints on standard output when it is run without any argument —
+// the usage text, whatever its wording (it comes from constant strings only: cli_output_sites).
+func (e *executor) usageText() string {
+	if e.usage == nil {
+		cmd := exec.Command(e.opgen)
+		var so strings.Builder
+		cmd.Stdout = &so
+		cmd.Run()
+		u := so.String()
+		e.usage = &u
+	}
+	return *e.usage
+}
+
 func (e *executor) execCli(a opArgs, lean string) string {
 	if e.opgen == "" {
 		return "no-opgen-binary"
@@ -1366,7 +1426,7 @@ func (e *executor) execCli(a opArgs, lean string) string {
 		if code != want("exit") {
 			return mism("exit-code")
 		}
-		if stdout != "" && !strings.HasPrefix(stdout, "\nopgen characters [--length=<n>]") {
+		if stdout != "" && stdout != e.usageText() {
 			return mism("stdout-not-usage")
 		}
 		return lean
